@@ -57,8 +57,7 @@ Qed.
 Lemma PR_negotiate n h w : PR n w -> PR n (negotiate_hold_time h w).
 Proof.
   intros H. unfold negotiate_hold_time. cbv zeta.
-  apply (PR_frame n (if negb (w_hold (set_w_hold (N.min (w_hold w) h) w) =? 0) &&
-                        (w_hold (set_w_hold (N.min (w_hold w) h) w) <? 3)
+  apply (PR_frame n (if hold_refused h (w_hold (set_w_hold (N.min (w_hold w) h) w))
                      then F_open_message_error c_ERR_MSG_OPEN_UNACCPT_HOLD_TIME [] (set_w_hold (N.min (w_hold w) h) w)
                      else set_w_hold (N.min (w_hold w) h) w)); [reflexivity|].
   match goal with |- PR n (if ?b then _ else _) => destruct b end.
